@@ -273,11 +273,21 @@ P("C14", "proof", "Lean 4 theorems (UTF-8 validity is preserved by every byte-le
   modules=["TypedPathVerif.Lemmas.Utf8"],
   rule="strings over {/ \\ . : a é 日 😀 ? C} + prefix seeds with non-ASCII payloads + random; non-trivial = multi-byte character and >= 2 components", design_ref="§5 C14")
 
-P("C15", "translation_validation", "typed/platform wrappers vs wrapped concrete types (transcripts) + model differential",
-  "Every wrapper method is run on both variants and compared with the same method on the wrapped concrete type; the "
-  "variant is checked after every call; the derive rule is compared with the model and the grammar spec.",
-  TV_NOTE + "Only the Unix host configuration of native/platform can be built here.",
-  rule="small Windows and Unix domains x 10 arguments x both variants; non-trivial = >= 2 components", design_ref="§5 C15")
+P("C15", "translation_validation", "whole-family method transcripts: typed / UTF-8 typed / platform / UTF-8 platform wrappers vs the wrapped concrete types, borrowed and owned, variant tag after every call + Lean theorems for the derive rule + model differential",
+  "Every wrapper method (read-only, mutating, conversions, iterators forwards / backwards / alternating) is run on both "
+  "variants, on the borrowed and the owned type, and compared line by line with the same method on the wrapped concrete "
+  "type; the variant is checked after every call; platform and UTF-8 platform types are compared with the native "
+  "encoding. The one piece of logic — how TypedPath::derive picks the variant — is proved in Lean: Windows exactly "
+  "when the first byte is `\\` or a prefix parses (derive_iff), hence every `X:`-path is Windows (derive_disk), every "
+  "path that neither starts with `\\` nor like a prefix is Unix (derive_unix_of_prefix_free), and the tag of a path with "
+  "a complete prefix does not depend on what follows the prefix (derive_stable); the model's derive is compared with "
+  "the crate's and with the independent grammar on every run.",
+  TV_NOTE + "That each wrapper method delegates to the right concrete method is code shape, not logic: decided by the "
+  "transcripts (implementation vs implementation), not by a theorem. Only the Unix host configuration of native/platform "
+  "can be built here.",
+  theorems=["TP.C15.derive_iff", "TP.C15.derive_windows_of_prefix", "TP.C15.derive_disk",
+            "TP.C15.derive_unix_of_prefix_free", "TP.C15.derive_stable"],
+  rule="small Windows and Unix domains + hostile names x 10 arguments x both variants x 6 type families; non-trivial = >= 2 components", design_ref="§5 C15")
 
 P("C16", "proof", "Lean 4 theorems (same-encoding clauses; Windows->Unix structure preservation for prefix-free paths) + model/code correspondence; other clauses by oracle (known finding K4)",
   "Proved in Lean: converting to the same encoding returns the same bytes (conv_same_label) and the checked variant "
